@@ -146,7 +146,29 @@ func checkAggTriggers(c *core.Ctx) {
 			}
 			return true
 		})
-		c.Decide(len(ends) == 1 && ends[0] == s.end, "TRG", key, fn.Decl.Pos(), 1, "reads items."+s.end+"()", fmt.Sprintf("%s must report the tree's %s(); it calls %v", s.typ, s.end, ends))
+		// every path must return the value of the item at that end of the tree, read at the time of the call
+		in := newInterp(p, fn)
+		in.Hooks.Assert = assertOK
+		outs, err := runDecl(in, fn, nil, "")
+		bad := ""
+		if err != nil {
+			bad = "cannot interpret: " + err.Error()
+		}
+		want := "github.com/google/btree.(*BTree)." + s.end + "("
+		for _, o := range outs {
+			if o.Kind != "return" || len(o.Values) != 1 {
+				bad = "unexpected outcome " + o.String()
+				continue
+			}
+			v := o.Values[0].Canon()
+			if !strings.HasPrefix(v, want) || !strings.HasSuffix(v, ".value") {
+				bad = fmt.Sprintf("%s must report the value of the tree's %s() item as it is now; a path returns %s (state kept beside the multiset is not shown to follow every retraction)", s.typ, s.end, v)
+			}
+		}
+		if bad == "" && !(len(ends) == 1 && ends[0] == s.end) {
+			bad = fmt.Sprintf("%s must report the tree's %s(); it calls %v", s.typ, s.end, ends)
+		}
+		c.Decide(bad == "" && len(outs) > 0, "TRG", key, fn.Decl.Pos(), len(outs), "returns items."+s.end+"().value on every path", bad)
 	}
 	checkArrayTrigger(c)
 	// ABS4 orientation
